@@ -12,6 +12,7 @@ import traceback
 from harness import core
 from harness.props import c20_values as V
 from harness.props import c20_tables as TB
+from harness.props import c20_registered as RG
 from translate import schemas as tr
 
 ID = 'C20'
@@ -479,7 +480,8 @@ def run(ctx):
     rng = random.Random(1000003 * ctx['seed'] + 20)
     res.rule = ('one case per (class, set of supplied options with pool index) -- exhaustive single-option deviations from the '
                 'default configuration over the documented in/out pools of 31 classes, random 2..5-option combinations, the '
-                'explicit cross-rule corpus, positional forms; non-trivial = distinct case identities; correspondence cases are '
+                'explicit cross-rule corpus, positional forms, registered-defaults histories (one dictionary object on several '
+                'classes, later registrations, edits by the caller, clears) checked after every step; non-trivial = distinct case identities; correspondence cases are '
                 'distinct (class, input) pairs of recorded validate_config / rule calls')
     w = world()
     cases, n_single = gen_cases(ctx, rng)
@@ -497,6 +499,7 @@ def run(ctx):
             if len(res.witnesses) == before:
                 pass
         registered_defaults_cases(res)
+        RG.run_all(ctx, res)
     for wit in res.witnesses:
         outcomes[wit['kind']] = outcomes.get(wit['kind'], 0) + 1
     recs = rec.take_all()
@@ -631,6 +634,10 @@ def _tuplify(x):
 
 def replay(w):
     case = _tuplify(w['case'])
+    if case and case[0] == 'registered-history':
+        found = RG.replay_case(list(case))
+        return bool(found), ('history %r: ' % (case[1:],)) + (found[0]['what'] if found else
+                                                               'every class constructs as with its own registrations only')
     if case and case[0] == 'registered':
         res = core.Result()
         registered_defaults_cases(res)
